@@ -49,6 +49,7 @@ func (w *zzWorld) put(b []byte, mt string, manifest bool) descriptor.Descriptor 
 }
 
 var zzSmall bool
+var zzWantNested bool // the export/import harness also draws nested indexes
 
 func (w *zzWorld) image(id int) descriptor.Descriptor {
 	cfg := w.put([]byte(`{"architecture":"amd64","os":"linux","id":`+string(rune('0'+id))+`}`), mediatype.OCI1ImageConfig, false)
@@ -80,6 +81,17 @@ func zzBuildWorld() *zzWorld {
 		idx := v1.Index{Versioned: v1.IndexSchemaVersion, MediaType: mediatype.OCI1ManifestList}
 		for i := 0; i < n; i++ {
 			idx.Manifests = append(idx.Manifests, w.image(i))
+		}
+		if zzWantNested && zzBool("nested_index_sharing_a_child") {
+			// I -> [A, ..., N], N -> [A]: a nested index that shares its child with its parent
+			nb, _ := json.Marshal(v1.Index{Versioned: v1.IndexSchemaVersion, MediaType: mediatype.OCI1ManifestList, Manifests: []descriptor.Descriptor{idx.Manifests[0]}})
+			nd := w.put(nb, mediatype.OCI1ManifestList, true)
+			w.all = append(w.all, nd.Digest)
+			if zzBool("nested_first") {
+				idx.Manifests = append([]descriptor.Descriptor{nd}, idx.Manifests...)
+			} else {
+				idx.Manifests = append(idx.Manifests, nd)
+			}
 		}
 		b, _ := json.Marshal(idx)
 		w.top = w.put(b, mediatype.OCI1ManifestList, true)
@@ -143,7 +155,9 @@ func zzRefsPresent(root string, b []byte) bool {
 // tag. Import of the same entries in a symbolic order: the target ends up
 // with the same top digest and the complete, byte-identical content.
 func ZZC09_export_import() {
+	zzWantNested = true
 	w := zzBuildWorld()
+	zzWantNested = false
 	rc := New()
 	rSrc, _ := ref.New("ocidir://" + zzSrc + ":v1")
 	zztar.Output = nil
